@@ -94,7 +94,9 @@ func (g *Circle) Contains(obj Object) bool {
 	case *SimplePoint:
 		return g.containsPoint(other.Center())
 	case *Circle:
-		return other.Distance(g) < (other.meters + g.meters)
+		// every point of other is within g when the distance between the
+		// centers plus other's radius does not exceed g's radius
+		return other.Distance(g)+other.meters <= g.meters
 	case Collection:
 		for _, p := range other.Children() {
 			if !g.Contains(p) {
